@@ -210,6 +210,14 @@ def run(tier):
                 rep.ob("C11.search|current-path", okc_, "the file is parsed under the location that was opened, so a relative .includepath inside it starts from its real directory" if okc_ else
                        "the context the file is parsed with does not carry the location that was opened (File::open takes `%s`, current_path is `%s`): a relative .includepath inside a file found through the search directories starts from the wrong directory" % (
                            pb["locals"][opened[0]]["name"] if opened and opened[0] is not None else "?", pb["locals"][cur]["name"] if cur is not None else "?"))
+            # ... and on every path that reaches the nested parse, not only when the file was found as written
+            idomp = G.dominators(pb)
+            parse_calls = [x for x, xt, xn, xtg in P.call_sites(pk) if "parser::parse" in xtg]
+            parents = [x for x, xt, xn, xtg in P.call_sites(pk) if MU.callee_names(xt)[1] == "std::path::Path::parent"]
+            always = bool(parse_calls) and any(all(G.dominates(idomp, x, pc) for pc in parse_calls) for x in parents)
+            rep.ob("C11.search|own-directory|always", okp and always,
+                   "the file's own directory is determined on every path to the nested parse (however the file was found)" if okp and always else
+                   "the file's own directory is added to the search set only on some paths (e.g. only when the path exists as written): a file found through the include directories cannot include its siblings by bare name")
             rep.ob("C11.search|own-directory", okp, "the directory of the file being parsed is added to the set its own includes are searched in" if okp else
                    "the directory of the including file is not added to the search set")
     # caller-supplied directories
